@@ -8,6 +8,9 @@ use crate::gen::{adversarial, common, seeds, soup, text};
 pub struct C04Prop;
 pub static C04: C04Prop = C04Prop;
 
+/// nesting depths of the work-scaling families
+const SCALE_DEPTHS: [usize; 3] = [5, 10, 20];
+
 const CFG_GRID: &[(u32, bool, bool)] = &[
     (120, false, false),
     (0, false, false),
@@ -144,7 +147,7 @@ impl Prop for C04Prop {
         "C04"
     }
     fn rule(&self) -> String {
-        "Streams: sigma3 = every sequence of 3 lexemes over the 109-lexeme alphabet (space-joined), default configuration; sigma2cfg = every pair x 8 configurations x 3 separators, in the build with debug assertions; random streams (proptest-generated choice tapes decoded into token soup, arbitrary UTF-8, mutated/spliced/truncated repository seeds, conditional-directive-heavy inputs with up to 64 sequential/nested blocks, nesting up to depth 60 (capped, see finding F-C04-stack), long tokens/gaps at u8/u16 boundaries) x generated configuration x 0-8 cursors on char boundaries or past the end; '_chk' streams run in the build with debug assertions and overflow checks. Oracle: format() returns (no panic; no abort or hang of the worker process, confirmed in a fresh process with a 60 s limit; hang oracle only for inputs <= 256 bytes); conditional passes <= 1 + number of conditional-directive tokens (hook H3). Non-trivial = at least 2 tokens and not cleanly accepted by the grammar (unknown/unterminated token, unbalanced brackets or begin/end, or a warning logged by the formatter); distinct by hash of (input, configuration, cursors)."
+        "Streams: sigma3 = every sequence of 3 lexemes over the 109-lexeme alphabet (space-joined), default configuration; sigma2cfg = every pair x 8 configurations x 3 separators, in the build with debug assertions; random streams (proptest-generated choice tapes decoded into token soup, arbitrary UTF-8, mutated/spliced/truncated repository seeds, conditional-directive-heavy inputs with up to 64 sequential/nested blocks, nesting up to depth 60 (capped, see finding F-C04-stack), long tokens/gaps at u8/u16 boundaries) x generated configuration x 0-8 cursors on char boundaries or past the end; '_chk' streams run in the build with debug assertions and overflow checks. Oracle: format() returns (no panic; no abort or hang of the worker process, confirmed in a fresh process with a 60 s limit; hang oracle only for inputs <= 256 bytes); conditional passes <= 1 + number of conditional-directive tokens (hook H3); scaling = 29 nesting families x 4 configurations: the number of search iterations of the line wrapper (hook H4) at nesting depths 5 / 10 / 20 may grow by at most a factor 12 per doubling (about cubic), decided without a clock. Non-trivial = at least 2 tokens and not cleanly accepted by the grammar (unknown/unterminated token, unbalanced brackets or begin/end, or a warning logged by the formatter); distinct by hash of (input, configuration, cursors)."
             .into()
     }
     fn assumptions(&self) -> Vec<String> {
@@ -168,6 +171,7 @@ impl Prop for C04Prop {
             Stream::random("directives", if q { 600 } else { 8000 }, 400),
             Stream::random("deep", if q { 300 } else { 4000 }, 64),
             Stream::random("long", if q { 8 } else { 40 }, 16).shards(4),
+            Stream::exhaustive("scaling", adversarial::OPENERS.len() as u64 * 4).shards(8),
         ];
         if !q {
             v.push(Stream::exhaustive("sigma4", soup::space_size(4)));
@@ -209,6 +213,18 @@ impl Prop for C04Prop {
                 soup::render_indices(&soup::decode(index, 4), " "),
                 Cfg::default(),
             )),
+            "scaling" => {
+                let kind = (index / 4) as usize;
+                let variant = index % 4;
+                let cfg = Cfg {
+                    begin_always_wrap: variant & 1 == 1,
+                    wrap_column: if variant & 2 == 2 { 40 } else { 120 },
+                    ..Cfg::default()
+                };
+                let mut c = Case::text("scaling", adversarial::nest(kind, SCALE_DEPTHS[2], variant == 0), cfg);
+                c.extra = serde_json::json!({"scaling_kind": kind, "close": variant == 0});
+                Some(c)
+            }
             "sigma2cfg" => {
                 let pair = index / 24;
                 let r = (index % 24) as usize;
@@ -244,6 +260,39 @@ impl Prop for C04Prop {
         }
     }
     fn check(&self, case: &Case, ctx: &mut Ctx) -> Outcome {
+        if let Some(kind) = case.extra.get("scaling_kind").and_then(|v| v.as_u64()) {
+            // work-scaling oracle: search iterations (hook) at nesting depths d, 2d, 4d must
+            // grow polynomially, without consulting a clock
+            let close = case.extra.get("close").and_then(|v| v.as_bool()).unwrap_or(true);
+            let mut w = [0u64; 3];
+            for (i, d) in SCALE_DEPTHS.iter().enumerate() {
+                let input = adversarial::nest(kind as usize, *d, close);
+                let _ = pasfmt_core::rules::optimising_line_formatter::verif_work::take_iterations();
+                let _ = format_with(&case.cfg, &input);
+                w[i] = pasfmt_core::rules::optimising_line_formatter::verif_work::take_iterations();
+                // checked after every depth, so that an exponential blow-up is reported at the
+                // first doubling instead of being waited for at the next
+                if i > 0 && w[i] > 12 * w[i - 1].max(64) {
+                    return Outcome::Fail(
+                        Failure::new(
+                            "work-growth",
+                            format!(
+                                "search iterations grow faster than a cubic polynomial with nesting depth: {} -> {} iterations from depth {} to {} of {:?} (all: {:?})",
+                                w[i - 1], w[i], SCALE_DEPTHS[i - 1], SCALE_DEPTHS[i],
+                                adversarial::OPENERS[kind as usize % adversarial::OPENERS.len()].0,
+                                &w[..=i]
+                            ),
+                        )
+                        .fact("work-growth"),
+                    );
+                }
+            }
+            if std::env::var("VERIF_SHOW_WORK").is_ok() {
+                eprintln!("scaling kind {kind} close {close} cfg wrap {} always {}: work {:?}", case.cfg.wrap_column, case.cfg.begin_always_wrap, w);
+            }
+            ctx.class("scaling-family");
+            return Outcome::Pass { nontrivial: true };
+        }
         for c in &case.cursors {
             let c = *c as usize;
             if c <= case.input.len() && !case.input.is_char_boundary(c) {
